@@ -211,7 +211,7 @@ UNTRACE = [('kernpy.core.tokens', 'TokenCategoryHierarchyMapper.valid')]
 OBLIGATIONS = [
     Ob(id='C04.a', fn=ob_a, title='tokens with symbolic sub-token texts under a symbolic category set: plain == extended - separators, basic == full - signifiers per note',
        shard_of=lambda dur, d1, shape, p, a, clef, b: shape + 4 * p + 8 * a, shards={'quick': 16, 'thorough': 16}, budget_s={'quick': 170, 'thorough': 2400},
-       witnesses=[{'dur': '4', 'd1': 'J', 'shape': 2, 'p': 0, 'a': 1, 'clef': 0, 'b': [True] * N}], min_confirmed=300,
+       witnesses=[{'dur': '4', 'd1': 'J', 'shape': 2, 'p': 0, 'a': 1, 'clef': 0, 'b': [True] * N}], min_confirmed=100,
        symbolic='duration text, signifier text (arbitrary 1-character strings), category set (37 booleans)', enumerated='token shape (note, dotted note, chord, chord with rest), pitch, accidental, clef',
        bounds={'quick': 'duration 1 char, signifier 1 char; 4 shapes x 2 pitches x 2 accidentals, G2 clef (clef dependence is C10)', 'thorough': 'same'}),
     Ob(id='C04.a2', fn=ob_a2, title='non-note tokens are identical in the six encodings (symbolic text, symbolic category set)',
